@@ -20,7 +20,7 @@ Base == [query |-> "Query", mutation |-> "", subscription |-> "",
                                                               Fld("n", Named("Node"), <<>>), Fld("u", Named("U"), <<>>), Fld("e", NN(Named("E")), <<>>),
                                                               \* defaults of every input kind (C12 / C15): string with quote, backslash and an astral character ("ASTRAL" is
                                                               \* expanded by the harness), enum (internal value), list, input object that explicitly nulls a defaulted field, bool, float
-                                                              [Fld("d", Named("Int"), << ArgD("s", Named("String"), [k |-> "str", v |-> "ASTRAL"]), ArgD("ev", Named("E"), [k |-> "enumv", v |-> "px"]),
+                                                              [Fld("d", Named("Int"), << ArgD("s", Named("String"), [k |-> "str", v |-> "ASTRAL"]), ArgD("ev", Named("E"), [k |-> "enumv", v |-> "Y"]), ArgD("e3", Named("E3"), [k |-> "enumv", v |-> "2"]),
                                                                                         ArgD("li", ListOf(Named("Int")), [k |-> "list", vs |-> <<[k |-> "int", v |-> "1"], [k |-> "int", v |-> "2"]>>]),
                                                                                         ArgD("o", Named("In"), [k |-> "dict", fs |-> <<[key |-> "dflt", val |-> [k |-> "null"]], [key |-> "g", val |-> [k |-> "int", v |-> "2"]]>>]),
                                                                                         ArgD("b", Named("Boolean"), [k |-> "bool", v |-> TRUE]), ArgD("fl", Named("Float"), [k |-> "float", v |-> "1.5"]),
@@ -28,13 +28,16 @@ Base == [query |-> "Query", mutation |-> "", subscription |-> "",
                                                                                         ArgD("z", Named("Int"), [k |-> "int", v |-> "0"]), ArgD("es", Named("String"), [k |-> "str", v |-> ""]),
                                                                                         ArgD("el", ListOf(Named("Int")), [k |-> "list", vs |-> <<>>]), ArgD("bf", Named("Boolean"), [k |-> "bool", v |-> FALSE]) >>)
                                                                  EXCEPT !.dep = "ASTRAL"] >>],
-    [k |-> "interface", name |-> "Node", fields |-> << Fld("id", Named("ID"), <<>>) >>],
-    [k |-> "object", name |-> "A", ifaces |-> <<"Node">>, fields |-> << Fld("id", Named("ID"), <<>>), Fld("s", Named("String"), <<>>) >>],
-    [k |-> "object", name |-> "B", ifaces |-> <<>>, fields |-> << Fld("id", Named("ID"), <<>>) >>],
+    \* an interface with a deprecated field (introspection must filter it like an object's)
+    [k |-> "interface", name |-> "Node", fields |-> << Fld("id", Named("ID"), <<>>), [Fld("old", Named("Int"), <<>>) EXCEPT !.dep = "gone"] >>],
+    [k |-> "object", name |-> "A", ifaces |-> <<"Node">>, fields |-> << Fld("id", Named("ID"), <<>>), Fld("s", Named("String"), <<>>), Fld("old", Named("Int"), <<>>) >>],
+    [k |-> "object", name |-> "B", ifaces |-> <<>>, fields |-> << Fld("id", Named("ID"), <<>>), Fld("old", Named("Int"), <<>>) >>],
     [k |-> "union", name |-> "U", members |-> <<"A", "B">>],
-    [k |-> "enum", name |-> "E", values |-> << [name |-> "X", dep |-> "", py |-> "px"], [name |-> "Y", dep |-> "", py |-> "py"] >>],
+    [k |-> "enum", name |-> "E", values |-> << [name |-> "X", dep |-> "", py |-> "Y"], [name |-> "Y", dep |-> "", py |-> "py"] >>],
     \* an enum value deprecated with an EMPTY reason ("EMPTY" is expanded by the harness to the empty string): still deprecated
     [k |-> "enum", name |-> "E2", values |-> << [name |-> "P", dep |-> "EMPTY", py |-> "pp"], [name |-> "Q", dep |-> "", py |-> "pq"] >>],
+    \* internal values "1" / "2" are realised as the Python ints 1 / 2 (a numeric internal value is not the GraphQL literal)
+    [k |-> "enum", name |-> "E3", values |-> << [name |-> "M", dep |-> "", py |-> "1"], [name |-> "N", dep |-> "", py |-> "2"] >>],
     [k |-> "input", name |-> "In", fields |-> << Arg("f", Named("Int")), ArgD("g", NN(Named("Int")), [k |-> "int", v |-> "1"]), ArgD("dflt", Named("Int"), [k |-> "int", v |-> "5"]) >>] >>,
   directives |-> << [name |-> "tag", locs |-> <<"FIELD", "QUERY">>, args |-> <<Arg("n", Named("Int"))>>] >>]
 
